@@ -79,6 +79,22 @@ Multi(t) ==
 
 IsLit(t) == Single(t) \/ Multi(t)
 
+\* ---- part 3 (Mode = "ident"): identifiers ----
+\* identifier = [ "#" | "_#" ] letter { letter | unicode_digit } ;  letter = unicode_letter | "_" | "$"
+\* classes of the candidate characters: the harness instantiates "L" with a, é and a CJK letter,
+\* "D" with an ASCII digit, an Arabic-Indic digit and a full-width digit
+IChars == <<"L", "D", "us", "dollar", "hash", "dash", "dot">>
+ICh(t, i) == IChars[t[i]]
+IsLetter(c) == c \in {"L", "us", "dollar"}
+IdentBody(t, i) == i <= Len(t) /\ IsLetter(ICh(t, i)) /\ \A j \in (i + 1)..Len(t) : IsLetter(ICh(t, j)) \/ ICh(t, j) = "D"
+\* "#" and "_#" alone: the grammar asks for a letter after them, but scanner, parser and ast.IsValidIdent
+\* all accept them (they are used as bare definition markers); the property asks that the three agree
+IsIdent(t) ==
+  \/ IdentBody(t, 1)
+  \/ (Len(t) = 1 /\ ICh(t, 1) = "hash") \/ (Len(t) = 2 /\ ICh(t, 1) = "us" /\ ICh(t, 2) = "hash")
+  \/ Len(t) >= 2 /\ ICh(t, 1) = "hash" /\ IdentBody(t, 2)
+  \/ Len(t) >= 3 /\ ICh(t, 1) = "us" /\ ICh(t, 2) = "hash" /\ IdentBody(t, 3)
+
 VARIABLES s, form, valid
 vars == <<s, form, valid>>
 Seqs(n, k) == UNION {[1..m -> 1..n] : m \in 0..k}
@@ -86,6 +102,8 @@ NoForm == [kind |-> "none", ml |-> "single", hashes |-> FALSE, cs |-> "any"]
 Init ==
   IF Mode = "quote"
     THEN /\ s \in Seqs(NSym, L) /\ form \in Forms /\ OKFor(form, s) /\ valid = TRUE
+    ELSE IF Mode = "ident"
+    THEN /\ s \in Seqs(Len(IChars), L) /\ s # <<>> /\ form = NoForm /\ valid = IsIdent(s)
     ELSE /\ s \in Seqs(Len(TChars), L) /\ s # <<>> /\ form = NoForm /\ valid = IsLit(s)
 Next == UNCHANGED vars
 
